@@ -150,6 +150,13 @@ def gen_scenario(rng: random.Random, seed: int, cls: str) -> dict:
     elif cls == "idem-start":
         # any starting value, far enough from the wrap point that the run does not cross it
         sc["start_seq"] = {str(p): rng.choice([1, 7, 65535, 65536, 10**6, WRAP - 1000]) for p in range(nparts)}
+    if cls == "idem-long":
+        # a run of retriable faults that outlasts the batch TTL (= request timeout): an idempotent
+        # producer must keep retrying (never expire a batch whose sequence was already consumed)
+        sc["request_timeout_ms"] = rng.choice([300, 500])
+        sc["faults"] = dict(budget=rng.choice([10, 14, 20]), p=rng.choice([0.8, 1.0]), slow=0,
+                            kinds=rng.choice([["error"], ["error", "drop_before"]]))
+        sc["quiet"] = 6.0
     if cls == "acks0":
         sc["idem"], sc["acks"] = False, 0
     if cls == "versions":
@@ -198,6 +205,10 @@ def classify(pid, sc, trace, v):
     ev = trace[v["reached"] - 1] if v["reached"] - 1 < len(trace) else {"e": "end"}
     e = ev["e"]
     prop = "C02" if e in C02_EVENTS else "C01"
+    if e == "Fail" and sc["idem"] and pid == "C01":
+        # an idempotent batch failed after its sequence was consumed: the next batch of the partition
+        # leaves a sequence gap (C01) -- besides failing an accepted record on retriable faults (C02)
+        prop = "C01"
     extra = ""
     if e == "Fail":
         extra = ":" + ev.get("err", "")
